@@ -186,6 +186,7 @@ def run_history(sc, want_idempotence=True, faults=None, audits=True):
     zones = {}
     outcome = []
     results = []
+    os_genuine = []
     top = sc.get('top', 'Manifest')
     with World(sc) as w:
         w.build()
@@ -253,6 +254,9 @@ def run_history(sc, want_idempotence=True, faults=None, audits=True):
                     except Exception:
                         pass
             r, info = do_update(w, seam, u, opi, top)
+            if r[0] == 'OS':
+                from .common import genuine_oserror
+                os_genuine.append((r[1], getattr(r[2], 'filename', None), genuine_oserror(r[2])))
             opi += 2
             snap1 = w.snapshot()
             results.append(r)
@@ -311,7 +315,8 @@ def run_history(sc, want_idempotence=True, faults=None, audits=True):
             prior = {}
             before_all = dict(before)
             for vb in valid_before:
-                if vb not in before_all:
+                # (only names the unregistered-Manifest scan looks for can be adopted by the update)
+                if vb not in before_all and os.path.basename(vb) in G.MANIFEST_NAMES:
                     try:
                         before_all[vb] = _m.read_manifest(vb)[0]     # unregistered but valid: update will adopt it
                     except Exception:
@@ -461,5 +466,5 @@ def run_history(sc, want_idempotence=True, faults=None, audits=True):
             clock.advance(3_000_000_000)
         final_snapshot = w.snapshot(content=True, with_mtime=False)
         written = sorted(set(e[2] for e in seam.write_events if e[1] == 'open.w'))
-    return {'written': written, 'violations': violations, 'seams': [seam], 'counters': counters, 'zones': zones,
+    return {'written': written, 'os_genuine': os_genuine, 'violations': violations, 'seams': [seam], 'counters': counters, 'zones': zones,
             'outcome': outcome, 'results': results, 'final': final_snapshot}
